@@ -147,6 +147,13 @@ def repetition_caps(prog, rep, RID):
                 ov = norm(ov)
                 if "number_of_edges()" in ov and "sum(" in ov:
                     rep.ok(RID, key, "largest non-ignored flow value reachable from / reaching the edge; ignored edges get |E| + the sum of the other caps", g.loc(src))
+                elif "sum(" not in ov and any(isinstance(n_, _ast.Call) and isinstance(n_.func, _ast.Name) and n_.func.id in ("max", "min") and n_.args and
+                                              isinstance(n_.args[0], (_ast.GeneratorExp, _ast.ListComp)) for n_ in _ast.walk(_ast.parse(ov, mode="eval"))):
+                    # an ignored edge shared by several cycles is crossed once per traversal of each of them: its traversals add up over the
+                    # non-ignored edges around it, so the largest single cap (max over the collection) is below what an optimal walk may need
+                    rep.violation(RID, key + ":ignored-values", f"the cap of the ignored edges `{ov[:160]}` takes the largest (max / min) of the other caps, not their sum: an ignored edge "
+                                  "shared by several cycles is crossed as often as all of them together (s->a, a->b ignored, b->c->a 5 times and b->d->a 5 times: "
+                                  "a->b is crossed 11 times), so optimal walks are cut off and a worse decomposition is reported as optimal", g.loc(src))
                 else:
                     raise AnalysisError(f"{cname}.__init__: cannot classify the cap `{ov[:80]}` given to ignored edges")
             continue
